@@ -18,15 +18,18 @@ task<int> parent(kit::LeafState* ls) { int v = co_await child(ls); co_return v +
 task<int> two_steps(kit::LeafState* a, kit::LeafState* b) { int v = co_await kit::Leaf{a}; int w = co_await kit::Leaf{b}; co_return v + w; }
 }  // namespace
 
-// args: [shape: 0 task, 1 nested task, 2 two awaits][scheduler: 0 inline, 1 event loop thread][leaf outcome after stop: 0 value, 1 done]
+// args: [shape: 0 task, 1 nested task, 2 two awaits][scheduler: 0 inline, 1 event loop thread, 2 event loop run by two threads
+// (a multi-threaded context, like static_thread_pool: the task's completion and the forwarded stop request may then run on
+// different threads)][leaf outcome after stop: 0 value, 1 done]
 VMC_HARNESS(coro_race_stop, "C10,C02,C01") {
   int shape = vmcrt::arg(0, 0), sched = vmcrt::arg(1, 0), done_after_stop = vmcrt::arg(2, 0);
   kit::LeafState la, lb; la.props = lb.props = "C10,C02"; la.name = "leaf-a"; lb.name = "leaf-b";
   kit::RcvState rs; rs.props = "C10,C01"; kit::FreeCtl ctl;
   inplace_stop_source ss;
   manual_event_loop loop;
-  std::optional<std::thread> lt;
-  if (sched == 1) lt.emplace([&] { loop.run(); });
+  std::optional<std::thread> lt, lt2;
+  if (sched >= 1) lt.emplace([&] { loop.run(); });
+  if (sched == 2) lt2.emplace([&] { loop.run(); });
   auto mk = [&] { return shape == 0 ? child(&la) : shape == 1 ? parent(&la) : two_steps(&la, &lb); };
   void* raw = nullptr;
   auto start_it = [&](auto snd) {
@@ -47,7 +50,7 @@ VMC_HARNESS(coro_race_stop, "C10,C02,C01") {
   if (sched == 0) start_it(mk()); else start_it(on(loop.get_scheduler(), mk()));
   completer.join(); stopper.join();
   vmc::wait_until([&] { return rs.count > 0; });
-  if (sched == 1) { loop.stop(); lt->join(); }
+  if (sched >= 1) { loop.stop(); lt->join(); if (lt2) lt2->join(); }
   vmc::check(rs.count == 1, "C10,C01", "completed-twice", "the task's receiver was not completed exactly once");
   vmc::check(rs.how == 'V' || rs.how == 'D', "C10", "task-result", ("task completed with " + rs.str()).c_str());
   if (rs.how == 'V') vmc::check(rs.value == (shape == 0 ? 6 : shape == 1 ? 16 : 12), "C10", "task-result", ("task completed with the wrong value " + rs.str()).c_str());
